@@ -181,7 +181,7 @@ Fixpoint d_yval_fuel (fuel : nat) (t : tree) : yval :=
       | 2 => YInt (d_n (d_arg 1 a))
       | 3 => YNull
       | 4 => YList (map (d_yval_fuel f) (d_items (d_arg 1 a)))
-      | _ => YMap
+      | _ => YMap (d_list d_str (d_arg 1 a))
       end
   end.
 Definition d_yval (t : tree) : yval := d_yval_fuel 16 t.
@@ -207,7 +207,7 @@ Fixpoint e_yval (v : yval) : tree :=
   | YInt n => L [I 2%N; I n]
   | YNull => L [I 3%N]
   | YList l => L [I 4%N; L (map e_yval l)]
-  | YMap => L [I 5%N]
+  | YMap ks => L [I 5%N; e_list e_str ks]
   end.
 
 (* main(): argv, optional -s source, optional user source; the packaged defaults and the
